@@ -49,7 +49,13 @@ func NewPhaseUnwrapper(fractionBits, lowBitsToDrop uint, enable bool, biasLevel,
 	if lowBitsToDrop > 0 && enable {
 		u.twoPi = uint16(1) << (fractionBits - lowBitsToDrop)
 		onePi := int16(1) << (fractionBits - lowBitsToDrop - 1)
-		bias := int16(biasLevel>>lowBitsToDrop) % int16(u.twoPi)
+		// biasLevel is given in units where 2^16 is one ϕ0 (see calcBiasLevel); convert it
+		// to the output units, where 2^(fractionBits-lowBitsToDrop) is one ϕ0.
+		biasShift := lowBitsToDrop
+		if fractionBits < 16 {
+			biasShift += 16 - fractionBits
+		}
+		bias := int16(biasLevel>>biasShift) % int16(u.twoPi)
 		u.upperStepLim = bias + onePi
 		u.lowerStepLim = bias - onePi
 
